@@ -133,7 +133,9 @@ func checkGraph(state *dataflow.AnalyzerState, st *graphStats, add func(sig, det
 					}
 				}
 			case *dataflow.BoundLabelNode:
-				if mc := x.DestInfo().MakeClosure; mc != nil {
+				// only asserted for eagerly built graphs: with on-demand summarisation the traversal resolves
+				// the destination closure lazily (and the statement does not list bound labels)
+				if mc := x.DestInfo().MakeClosure; mc != nil && !state.Config.SummarizeOnDemand {
 					if cf, ok := mc.Fn.(*ssa.Function); ok {
 						if want := fg.Summaries[cf]; want != nil && x.DestClosure() != want {
 							add("boundlabel-unlinked", fmt.Sprintf("bound-label node %s does not point to the existing summary of %s", nodeDesc(x), cf))
